@@ -10,6 +10,8 @@ Operations on files f0, f1 (two grammar versions, two cache directories):
   C  parse(path, cache=True)  D  parse(path, cache=True, diff_cache=True)   N  parse(path) without cache
   R  drop the in-memory cache (new process)     X  delete the cache directory
   Z  write-during-parse: content is read, then the file is rewritten before the cache stamps the entry
+  S  strict parse through the cache: parse(path, cache=True, error_recovery=False) -- must raise exactly when a fresh strict
+     parse of the current content raises, and otherwise return the same tree
   B  back-dated write: new content whose modification time is strictly newer than the file's previous one but older than
      the clock (cp -p, rsync -t, tar, a checkout that restores times): still "observable as a newer modification time"
 Postcondition of every parse: dump() equals a fresh non-caching parse of the file's *current* content.
@@ -29,7 +31,7 @@ sys.path.insert(0, os.path.dirname(os.path.dirname(os.path.abspath(__file__))))
 from harness.treeutil import crash_signature  # noqa
 
 CONTENTS = ['(a := 1)\n', 'def f(a, /): pass\n', 'a = 1\n', 'def f():\n    return 2\n', 'a = 1\nb = (\n', 'class C:\n  x = [1,\n 2]\n\nprint(C)\n', '', 'if a:\n  b\nelse:\n  c\n']
-OPS = ['W', 'T', 'C', 'D', 'N', 'R', 'X', 'Z', 'B']
+OPS = ['W', 'T', 'C', 'D', 'N', 'R', 'X', 'Z', 'B', 'S']
 
 
 class World:
@@ -158,6 +160,25 @@ def run_history(args):
                 elif op == 'X':
                     for c in w.cdirs:
                         shutil.rmtree(c, ignore_errors=True)
+                elif op == 'S':
+                    from pathlib import Path
+                    from parso.parser import ParserSyntaxError
+                    g = w.grammars[gi]
+                    try:
+                        fresh = g.parse(w.content[f], error_recovery=False)
+                    except ParserSyntaxError:
+                        fresh = None
+                    try:
+                        node = g.parse(path=Path(f), cache=True, error_recovery=False, cache_path=Path(w.cdirs[ci]))
+                    except ParserSyntaxError:
+                        node = None
+                    if (node is None) != (fresh is None):
+                        return ('bnd:C16.parse_equals_fresh', 'strict-through-cache',
+                                'step %d S on %s: a fresh strict parse %s, the strict parse through the cache %s (content %r...)'
+                                % (step, os.path.basename(f), 'raises' if fresh is None else 'returns a tree',
+                                   'raises' if node is None else 'returns a tree', w.content[f][:30]), hist)
+                    if node is not None and node.dump(indent=None) != fresh.dump(indent=None):
+                        return ('bnd:C16.parse_equals_fresh', 'strict-through-cache', 'step %d S: tree differs from a fresh strict parse' % step, hist)
                 elif op in 'CDNZ':
                     node, fresh = w.parse(f, gi, ci, cache=op in 'CDZ', diff=op == 'D', race=op == 'Z')
                     if fresh is not None and node.dump(indent=None) != fresh.dump(indent=None):
@@ -183,7 +204,7 @@ def histories(length, seed, sample):
             acts.append((op, 0, 0, 0))
         elif op in 'WT':
             acts += [(op, 0, 0, 0), (op, 1, 0, 0)]
-        elif op in 'ZB':
+        elif op in 'ZBS':
             acts += [(op, 0, 0, 0)]
         else:
             acts += [(op, 0, 0, 0), (op, 1, 0, 0), (op, 0, 1, 0), (op, 0, 0, 1)]
@@ -211,6 +232,13 @@ def histories(length, seed, sample):
             out.append([a2, a1])
             out.append([a1, ('R', 0, 0, 0), a2])
             out.append([a2, ('R', 0, 0, 0), a1, a2])
+    # ... strict parses through the cache around recovering ones, on every content (some contents do not parse cleanly)
+    for n in range(len(CONTENTS)):
+        pre = [('W', 0, 0, 0)] * n
+        for p1 in ps[:2]:
+            out.append(pre + [p1, ('S', 0, 0, 0)])
+            out.append(pre + [('S', 0, 0, 0), p1, ('S', 0, 0, 0)])
+            out.append(pre + [p1, ('R', 0, 0, 0), ('S', 0, 0, 0)])
     # ... a cached file is replaced by a version with a back-dated (but newer) modification time, with and without a restart
     for p1 in ps[:4]:
         for p4 in ps[:4]:
@@ -225,7 +253,7 @@ def histories(length, seed, sample):
             out.append([(o1, 0, ga, 0), (o2, 0, gb, 0), ('W', 0, 0, 0), (o3, 0, ga, 0), (o4, 0, gb, 0)])
             out.append([(o1, 0, ga, 0), (o2, 1, gb, 0), ('W', 0, 0, 0), (o3, 0, ga, 0), (o4, 0, gb, 0)])
     # histories without any parse are trivial
-    return [h for h in out if any(a[0] in 'CDNZ' for a in h)], len(acts)
+    return [h for h in out if any(a[0] in 'CDNZS' for a in h)], len(acts)
 
 
 def main():
